@@ -7,7 +7,10 @@ G: every table the specification selects comes with the file bytes (chunks) and 
    The file is opened with ELFFile; SymbolTableSection (num_symbols / get_symbol / iter_symbols in several
    consumption patterns / get_symbol_by_name), SymbolTableIndexSection.get_section_index,
    SUNWSyminfoTableSection.iter_symbols, ELFHashSection / GNUHashSection get_symbol for every query name
-   (twice, in two orders) and get_number_of_symbols are compared with the view.
+   (twice, in two orders) and get_number_of_symbols are compared with the view.  The mach mode repeats this for
+   every e_machine of the specification's alphabet; the multi mode emits files with several symbol tables (section
+   names own / equal / blank) with the view of every table and query schedules over (table, name): every schedule
+   is walked on one ELFFile, with cached and with freshly fetched section objects.
 T: for every SHT_HASH / SHT_GNU_HASH section of the corpus files the raw section bytes and the library's
    answers for every symbol name and for absent names are validated by spec/trace/SymHashTrace.tla against
    the same reader machines (total verdict)."""
@@ -115,8 +118,11 @@ def _replay(run, ctx, case, ELFFile):
     hp = case['hp']
     mode = case['mode']
     tag = '%s/%s' % (mode, case['kind'])
+    if mode == 'mach':
+        tag += '/cls%d/em%d' % (case['cls'], case['mach'])
     small = len(data) < 3000
     brief = {'mode': mode, 'cls': case['cls'], 'le': case['le'], 'kind': case['kind'], 'ent': case['ent'], 'hp': hp, 'ix': case['ix'],
+             'e_machine': case['mach'],
              'names': [s[0] for s in syms] if n <= 8 else 'fields table (%d entries)' % n,
              'bytes_b64': core.b64(data) if small else None, 'chunks': None if small else case['chunks']}
     pat = ['-']
@@ -135,7 +141,11 @@ def _replay(run, ctx, case, ELFFile):
     sec = {}
     for k, i in ix.items():
         if i >= 0:
-            sec[k] = ef.get_section(i)
+            try:
+                sec[k] = ef.get_section(i)
+            except Exception as ex:
+                bad('front-end', want_cls[k], 'exc:%s:%s' % (type(ex).__name__, ex))
+                return
             if type(sec[k]).__name__ != want_cls[k]:
                 bad('front-end', want_cls[k], type(sec[k]).__name__)
                 return
@@ -220,7 +230,10 @@ def _replay(run, ctx, case, ELFFile):
     nlook = 0
     if 'hash' in sec:
         for kind, hs, clause in (('v', sec['hash'], 'sysv_hash'), ('g', sec['gnu'], 'gnu_hash')):
-            c = hs.get_number_of_symbols()
+            try:
+                c = hs.get_number_of_symbols()
+            except Exception as ex:
+                c = 'exc:%s:%s' % (type(ex).__name__, ex)
             if c != case['count']:
                 bad(clause + '.get_number_of_symbols', case['count'], c, t='%s/so=%s' % (mode, 'len' if hp['so'] == n else '<len'))
             order = list(range(len(ctx.strs)))
@@ -246,7 +259,64 @@ def _replay(run, ctx, case, ELFFile):
                     cand = indices([r])[0]
                     if not set(cand) & set(lk['ok']):
                         bad(clause + '.get_symbol', exp, {'returned': r.name, 'index': cand}, t=t)
+    if mode == 'multi':
+        _replay_multi(run, ctx, case, ELFFile, data, brief)
     return nlook
+
+
+def _replay_multi(run, ctx, case, ELFFile, data, brief):
+    """A file with several symbol tables: every table enumerates its own entries, and every query of every schedule
+    (table, name id) is answered from that table alone."""
+    tabs = case['tabs']
+    tag = 'multi/%s' % case['naming']
+    brief = dict(brief, naming=case['naming'], tables=[{'section': t['sym'], 'names': [s[0] for s in t['syms']]} for t in tabs])
+    where = ['-']
+
+    def bad(clause, expected, observed):
+        run.mismatch(clause, tag, dict(brief, at=where[0]), expected, observed)
+
+    # the listing of every table, from an ELFFile that is asked nothing else
+    ef0 = ELFFile(io.BytesIO(data))
+    index = []
+    for ti, t in enumerate(tabs):
+        where[0] = 'table %d (section %d)' % (ti + 1, t['sym'])
+        sec = ef0.get_section(t['sym'])
+        if type(sec).__name__ != 'SymbolTableSection':
+            bad('front-end', 'SymbolTableSection', type(sec).__name__)
+            return
+        got = list(sec.iter_symbols())
+        if sec.num_symbols() != len(t['syms']) or len(got) != len(t['syms']):
+            bad('num_symbols', len(t['syms']), [sec.num_symbols(), len(got)])
+            return
+        for i, (e, s) in enumerate(zip(t['syms'], got)):
+            _cmp_symbol(ctx, lambda c, x, o, t=None: bad(c, x, o), i, e, s)
+        d = {}
+        for i, s in enumerate(got):
+            d.setdefault(_entry_key(s), []).append(i)
+        index.append(d)
+    for si, sc in enumerate(case['sched']):
+        fresh, sched = sc['fresh'], sc['q']
+        ef = ELFFile(io.BytesIO(data))
+        cache = {}
+        for step, (t, k) in enumerate(sched):
+            tv = tabs[t - 1]
+            where[0] = 'schedule %d%s, query %d: table %d (section %d)' % (si + 1, ' (fresh section objects)' if fresh else '', step + 1,
+                                                                           t, tv['sym'])
+            if fresh or t not in cache:
+                cache[t] = ef.get_section(tv['sym'])
+            sec = cache[t]
+            name = ctx.strs[k - 1]
+            want = sorted(tv['byname'][k - 1])
+            r = sec.get_symbol_by_name(name)
+            if r is None:
+                if want:
+                    bad('get_symbol_by_name', {'name': name, 'indices': want, 'earlier queries (table, name id)': sched[:step]}, None)
+                continue
+            cand = [index[t - 1].get(_entry_key(s), [-1]) for s in r]
+            obs = sorted(c[0] for c in cand)
+            if any(len(c) != 1 for c in cand) or obs != want:
+                bad('get_symbol_by_name', {'name': name, 'indices': want or None, 'earlier queries (table, name id)': sched[:step]},
+                    {'returned': [[s.name, s['st_value']] for s in r], 'indices in this table': cand})
 
 
 # ----------------------------------------------------------------------------- T: corpus traces
@@ -371,7 +441,9 @@ def check(run):
     run.rule = ('G cases = symbol tables selected by SymHash.tla (lookup mode: null entry + up to MaxSyms symbols over 6 names x 4 '
                 'class/byte order x nbucket(s) x symoffset x bloom geometry, each with .dynsym/.dynstr/.hash/.gnu.hash; fields mode: '
                 '257-entry tables sweeping st_info/st_other/st_shndx/value/size as .dynsym, .symtab (sh_entsize + 8) and '
-                '.SUNW_ldynsym with .symtab_shndx and .SUNW_syminfo, and the empty table); distinct by file bytes; non-trivial = at '
+                '.SUNW_ldynsym with .symtab_shndx and .SUNW_syminfo, and the empty table; mach mode: small hashed tables x e_machine '
+                'codes x class/byte order; multi mode: files with 2..3 symbol tables x section naming own/same/blank x 4 query '
+                'schedules over (table, name)); distinct by file bytes; non-trivial = at '
                 'least one symbol after the null entry.  T cases = hash sections of the corpus files; non-trivial = all of them')
     run.assumptions += ['GNU tables: symoffset >= 1 (bucket value 0 means "empty"); bloom_size >= 1, nbuckets >= 1, shift < 32',
                         'GNU tables without a populated bucket whose symoffset is not the table length (GNU ld output for objects '
@@ -379,11 +451,13 @@ def check(run):
                         'visibility may be read with the gABI mask 0x3 or the Solaris mask 0x7',
                         'names the vendored registry and the gABI figures do not define are not asserted (vocabulary gating)',
                         'any hashed symbol bearing the queried name is a correct lookup answer',
-                        'SysV names whose figure 5-13 hash depends on the width of unsigned long are not judged']
+                        'SysV names whose figure 5-13 hash depends on the width of unsigned long are not judged',
+                        'ELFCLASS64 files of EM_ALPHA / EM_S390 (psABIs with 64-bit SysV hash words) are outside the generated set']
     # two runs of the same module: the lookup mode on all workers, the fields mode on one worker (its emitted lines are
     # longer than one atomic append, concurrent writers would interleave them)
-    runs = [('SymHash_quick', None), ('SymHash_fields', 1)] if run.tier == 'quick' else \
-           [('SymHash_thorough', None), ('SymHash_fields_thorough', 1)]
+    # (SymHash_quick_all = the lookup mode of SymHash_quick.cfg + the mach and multi modes)
+    runs = [('SymHash_quick_all', None), ('SymHash_fields', 1)] if run.tier == 'quick' else \
+           [('SymHash_thorough_all', None), ('SymHash_fields_thorough', 1)]
     ctx = None
     seen = set()
     nlook = 0
